@@ -65,6 +65,11 @@ pub fn residue_class(rows: &[HRow], model: &MResult, msg: &str) -> Option<&'stat
         return if x.gt(&y) && x.sub(&y).lt(&eps) { Some("R5") } else { None };
     }
     if !risky { return None; }
+    // R5 is about balances that cannot be held exactly: some balance of the exact history (after a split with a non-terminating factor)
+    // has no 28-digit decimal representation, so the tool's copy of it is rounded and a later exact multiple of it is off by 1e-28.
+    // Where every exact balance is representable (9 shares through a 1-for-3), the tool has to be exact: not R5.
+    let unrepresentable_balance = model.rows.iter().any(|m| m.share_bal.to_decimal_string(28).is_none() || m.all_bal.to_decimal_string(28).is_none());
+    if (msg.contains("is more than the current") || msg.contains("results in non-integer share balance of ")) && !unrepresentable_balance { return None; }
     if msg.contains("is more than the current") {
         // "Sell order on D of S shares of X is more than the current holdings (H)"
         let h = num_after("holdings (").or_else(|| num_after("affiliates ("))?;
